@@ -322,7 +322,7 @@ impl TryFrom<&ScalarValue> for protobuf::ScalarValue {
             }
             ScalarValue::Float16(val) => {
                 create_proto_scalar(val.as_ref(), &data_type, |s| {
-                    Value::Float32Value((*s).into())
+                    Value::Float16Value((*s).into())
                 })
             }
             ScalarValue::Float32(val) => {
